@@ -335,6 +335,12 @@ OnOp(m, e) ==
            m3 == IF e.name = "clear_poison" THEN [m2 EXCEPT !.should[e.c] = FALSE, !.may[e.c] = FALSE, !.shsite[e.c] = ""] ELSE m2
        IN [m3 EXCEPT !.op[t] = <<>>]
 
+\* C07: a checked constructor returns None exactly for inputs in which some lock is reachable twice
+OnCtor(m, e) ==
+  LET co == D(m.sid).C[e.c] IN
+  IF e.some = ~co.dup THEN m
+  ELSE Flag(m, "C07", e.kind \o (IF co.dup THEN "/duplicate-accepted" ELSE "/duplicate-free-input-rejected"))
+
 OnDeadlock(m, e) == IF Stuck(m) THEN Flag(m, "C01", "deadlock-reported-by-scheduler") ELSE m
 
 OnEnd(m0, e) ==
@@ -364,6 +370,7 @@ MonStep(m, ev) ==
       [] ev.e = "dropkey"  -> [m EXCEPT !.kalive[ev.t] = FALSE]
       [] ev.e = "forgetkey" -> m
       [] ev.e = "op"       -> OnOp(m, ev)
+      [] ev.e = "ctor"     -> OnCtor(m, ev)
       [] OTHER             -> m
 
 (***************************************************************************)
@@ -391,6 +398,7 @@ RuleHits(m, ev) ==
     [] ev.e = "get"   -> {"C06"}
     [] ev.e = "probe" -> {"C06"}
     [] ev.e = "rawpanic" -> {"C12"}
+    [] ev.e = "ctor"  -> {"C07"}
     [] ev.e = "panic" -> {"C11"} \cup (IF cu.c # 0 /\ D(m.sid).C[cu.c].pois # {} THEN {"C10"} ELSE {})
     [] ev.e = "op"    -> (IF ev.ph = "end" THEN {"C17"} ELSE {}) \cup (IF ev.name = "is_poisoned" /\ ev.ph = "end" THEN {"C10"} ELSE {})
     [] ev.e = "end"   -> {"C05", "C01"}
